@@ -1666,32 +1666,39 @@ def _(it, a, info):
 # ------------------------------------------------------------------------------ time
 
 def duration(secs, nanos):
-    return Struct('Duration', [secs, nanos])
+    """Duration is opaque to tiny-http (only std methods touch it): represented by its total nanoseconds as one
+    64-bit vector (durations >= 2^64 ns ~ 584 years are outside the model)."""
+    if isinstance(secs, int):
+        secs = bv(secs)
+    if isinstance(nanos, int):
+        nanos = bv(nanos, 32)
+    return Struct('Duration', [z3.simplify(secs * bv(1000000000) + z3.ZeroExt(32, nanos))])
+
+
+def duration_ns(ns):
+    return Struct('Duration', [ns])
 
 
 def dur_ns(d):
-    """total nanoseconds as a 128-bit vector"""
-    return z3.ZeroExt(64, d.fields[0]) * z3.BitVecVal(1000000000, 128) + z3.ZeroExt(96, d.fields[1])
+    return d.fields[0]
 
 
-def dur_from_ns(it, ns):
-    q = z3.simplify(z3.UDiv(ns, z3.BitVecVal(1000000000, 128)))
-    r = z3.simplify(z3.URem(ns, z3.BitVecVal(1000000000, 128)))
-    return duration(z3.simplify(z3.Extract(63, 0, q)), z3.simplify(z3.Extract(31, 0, r)))
+NS = 1000000000
 
 
 @model('Duration::from_millis')
 def _(it, a, info):
-    ms = a[0]
-    c = conc(ms)
-    if c is not None:
-        return duration(bv(c // 1000), bv((c % 1000) * 1000000, 32))
-    return duration(z3.simplify(z3.UDiv(ms, bv(1000))), z3.simplify(z3.Extract(31, 0, z3.URem(ms, bv(1000))) * 1000000))
+    return duration_ns(z3.simplify(a[0] * bv(1000000)))
 
 
 @model('Duration::from_secs')
 def _(it, a, info):
-    return duration(a[0], bv(0, 32))
+    return duration_ns(z3.simplify(a[0] * bv(NS)))
+
+
+@model('Duration::from_nanos')
+def _(it, a, info):
+    return duration_ns(a[0])
 
 
 @model('Duration::new')
@@ -1701,18 +1708,18 @@ def _(it, a, info):
 
 @model('Duration::as_secs')
 def _(it, a, info):
-    return deref(it, a[0]).fields[0]
+    return z3.simplify(z3.UDiv(dur_ns(deref(it, a[0])), bv(NS)))
 
 
 @model('Duration::subsec_nanos')
 def _(it, a, info):
-    return deref(it, a[0]).fields[1]
+    ns = dur_ns(deref(it, a[0]))
+    return z3.simplify(z3.If(z3.ULT(ns, bv(NS)), z3.Extract(31, 0, ns), z3.Extract(31, 0, z3.URem(ns, bv(NS)))))
 
 
 @model('Duration::as_millis')
 def _(it, a, info):
-    d = deref(it, a[0])
-    return z3.simplify(z3.UDiv(dur_ns(d), z3.BitVecVal(1000000, 128)))
+    return z3.simplify(z3.ZeroExt(64, z3.UDiv(dur_ns(deref(it, a[0])), bv(1000000))))
 
 
 def duration_cmp(it, x, y, m):
@@ -1725,24 +1732,15 @@ def duration_cmp(it, x, y, m):
 
 @model('<Duration as Sub>::sub')
 def _(it, a, info):
-    x, y = a[0], a[1]
-    if not it.ctx.branch(z3.UGE(dur_ns(x), dur_ns(y))):
+    x, y = dur_ns(a[0]), dur_ns(a[1])
+    if not it.ctx.branch(z3.UGE(x, y)):
         raise RustPanic('overflow when subtracting durations', tuple(it.callstack))
-    # (secs, nanos) arithmetic with borrow, as std does
-    xs, xn, ys, yn = x.fields[0], x.fields[1], y.fields[0], y.fields[1]
-    borrow = z3.ULT(xn, yn)
-    secs = z3.simplify(xs - ys - z3.If(borrow, bv(1), bv(0)))
-    nanos = z3.simplify(z3.If(borrow, xn + 1000000000 - yn, xn - yn))
-    return duration(secs, nanos)
+    return duration_ns(z3.simplify(x - y))
 
 
 @model('<Duration as Add>::add')
 def _(it, a, info):
-    x, y = a[0], a[1]
-    xs, xn, ys, yn = x.fields[0], x.fields[1], y.fields[0], y.fields[1]
-    nn = xn + yn
-    carry = z3.UGE(nn, 1000000000)
-    return duration(z3.simplify(xs + ys + z3.If(carry, bv(1), bv(0))), z3.simplify(z3.If(carry, nn - 1000000000, nn)))
+    return duration_ns(z3.simplify(dur_ns(a[0]) + dur_ns(a[1])))
 
 
 @model('WaitTimeoutResult::timed_out')
